@@ -129,6 +129,20 @@ PROPS = {
         'level_note': 'Trusted: rustc front end + MIR, the extractor, the field classification table.',
         'technique': 'definite-assignment (must-write) dataflow + who-may-write over resolved MIR (rustc_private driver)',
     },
+    'C17': {
+        'module': 'c17',
+        'explanation': 'Sibling-table and who-may-write rules over MIR: the ErrorKind->class match (raising) and the class->ErrorKind chain '
+                       '(reporting an uncaught error) are extracted arm by arm and must be mutually inverse with no class tested twice; the '
+                       'code and line vectors of a chunk change length only together in Chunk::write; runtime_error looks the line up in '
+                       'the chunk of the frame whose ip it uses, innermost frame first; error_at formats its token\'s line and is the only '
+                       'writer of the error list; every newline the scanner matches increments its line counter.',
+        'assumptions': COMMON_ASSUME,
+        'not_decided': ['that reported lines are the right ones for every call shape', 'message texts'],
+        'level_text': 'Decides L1-L3 for the two error tables, the line table writers and the scanner newline sites.',
+        'design_ref': 'DESIGN.md section 1, C17',
+        'level_note': 'Trusted: rustc front end + MIR, the extractor.',
+        'technique': 'sibling-table agreement + who-may-write rules over resolved MIR (rustc_private driver)',
+    },
 }
 
 NOT_APPLICABLE = {
